@@ -362,3 +362,88 @@ def _wire_access_any(expr):
             if k:
                 return k, "get"
     return None, ""
+
+
+# ---------------------------------------------------------------------------------------------------------------------------
+# readers must not mutate the wire dictionary they are given (a decoded event / history page is decoded again, compared, re-sent)
+def input_mutations(fn: FuncInfo) -> list[tuple[int, str]]:
+    """Alias depth analysis over one reader: every local is mapped to the depth down to which it is *fresh* with respect to the
+    parameter (0 = the parameter itself, 1 = shallow copy, inf = deep copy / unrelated); a store, delete or mutator call reaching
+    depth >= freshness mutates the caller's object."""
+    a = fn.node.args.args
+    params = [p.arg for p in a if p.arg not in ("cls", "self")]
+    INF = 99
+    fresh: dict[str, int] = {p: 0 for p in params}
+
+    def depth_of(expr) -> int | None:
+        """freshness of the object `expr` denotes, None if unrelated to the input"""
+        if isinstance(expr, ast.NamedExpr):
+            return depth_of(expr.value)
+        if isinstance(expr, ast.Name):
+            return fresh.get(expr.id)
+        if isinstance(expr, ast.Subscript):
+            d = depth_of(expr.value)
+            return None if d is None else max(d - 1, 0) if d < INF else INF
+        if isinstance(expr, ast.Call):
+            f = expr.func
+            if isinstance(f, ast.Attribute) and f.attr in ("get", "pop", "setdefault") and expr.args:
+                d = depth_of(f.value)
+                return None if d is None else max(d - 1, 0) if d < INF else INF
+            if isinstance(f, ast.Attribute) and f.attr == "deepcopy" and expr.args:
+                return INF if depth_of(expr.args[0]) is not None else None
+            if (isinstance(f, ast.Attribute) and f.attr == "copy" and isinstance(f.value, ast.Name) and f.value.id == "copy" and expr.args):
+                d = depth_of(expr.args[0])
+                return None if d is None else (INF if d >= INF else d + 1)
+            if isinstance(f, ast.Attribute) and f.attr == "copy" and not expr.args:
+                d = depth_of(f.value)
+                return None if d is None else (INF if d >= INF else d + 1)
+            if isinstance(f, ast.Name) and f.id in ("dict", "list") and len(expr.args) == 1:
+                d = depth_of(expr.args[0])
+                return None if d is None else (INF if d >= INF else d + 1)
+        if isinstance(expr, ast.Dict) and any(k is None for k in expr.keys):  # {**data, ...}
+            ds = [depth_of(v) for k, v in zip(expr.keys, expr.values) if k is None]
+            ds = [d for d in ds if d is not None]
+            return None if not ds else min(INF if d >= INF else d + 1 for d in ds)
+        if isinstance(expr, ast.BoolOp):
+            ds = [depth_of(v) for v in expr.values]
+            ds = [d for d in ds if d is not None]
+            return min(ds) if ds else None
+        if isinstance(expr, ast.IfExp):
+            ds = [d for d in (depth_of(expr.body), depth_of(expr.orelse)) if d is not None]
+            return min(ds) if ds else None
+        return None
+
+    out: list[tuple[int, str]] = []
+    # two passes so that walrus-bound names inside tests are known before the stores that follow them
+    for _ in range(2):
+        for n in ast.walk(fn.node):
+            if isinstance(n, ast.NamedExpr) and isinstance(n.target, ast.Name):
+                d = depth_of(n.value)
+                if d is not None:
+                    fresh[n.target.id] = min(fresh.get(n.target.id, INF), d)
+            elif isinstance(n, (ast.Assign, ast.AnnAssign)) and n.value is not None:
+                tg = n.targets if isinstance(n, ast.Assign) else [n.target]
+                for t in tg:
+                    if isinstance(t, ast.Name):
+                        d = depth_of(n.value)
+                        if d is not None:
+                            fresh[t.id] = min(fresh.get(t.id, INF), d)
+            elif isinstance(n, ast.For) and isinstance(n.target, ast.Name):
+                d = depth_of(n.iter)
+                if d is not None:
+                    fresh[n.target.id] = min(fresh.get(n.target.id, INF), max(d - 1, 0) if d < INF else INF)
+    for n in ast.walk(fn.node):
+        tgts = []
+        if isinstance(n, (ast.Assign, ast.AugAssign, ast.AnnAssign)):
+            tgts = [t for t in (n.targets if isinstance(n, ast.Assign) else [n.target]) if isinstance(t, ast.Subscript)]
+        elif isinstance(n, ast.Delete):
+            tgts = [t for t in n.targets if isinstance(t, ast.Subscript)]
+        for t in tgts:
+            d = depth_of(t.value)
+            if d is not None and d < 1:
+                out.append((n.lineno, f"`{ast.unparse(t)} = ...` writes into the caller's dictionary (`{ast.unparse(t.value)}` is not a copy at this depth)"))
+        if isinstance(n, ast.Call) and isinstance(n.func, ast.Attribute) and n.func.attr in ("update", "pop", "popitem", "setdefault", "clear", "append", "extend", "sort"):
+            d = depth_of(n.func.value)
+            if d is not None and d < 1:
+                out.append((n.lineno, f"`{ast.unparse(n)[:70]}` mutates the caller's dictionary"))
+    return sorted(set(out))
